@@ -133,10 +133,12 @@ def check(run, prog, tier):
     run.extra["assumed_not_byte_dependent"] = list(NOT_BYTE_DEPENDENT)
 
     # ================================================================== T1 termination
-    _termination(run, prog)
+    with run.part("T1 termination"):
+        _termination(run, prog)
 
     # ================================================================== G1 guards dominate effects
-    _guards(run, prog, et)
+    with run.part("G1 guards"):
+        _guards(run, prog, et)
 
 
 def es_is_sub(es, prog, exc, base):
@@ -207,7 +209,7 @@ def _termination(run, prog):
             n += 1
             ok, why = _consumes(node)
             run.ob("T1", f"{fi.qual}:while@{_loop_key(node)}", ok, loc(fi, node), why)
-    run.floor("T1", n, 4)
+    run.floor("T1", n, 1)
 
 
 def _loop_key(node: ast.While) -> str:
